@@ -373,6 +373,38 @@ func compositesOfDepth(info *types.Info, fd *ast.FuncDecl, elem *types.Named, se
 		if !ok || namedOf(tv.Type) != elem {
 			return true
 		}
+		// `x := &Elem{…}` followed by `x.f = v`: the element is the literal plus those fields
+		if len(stack) >= 2 {
+			var as *ast.AssignStmt
+			if a, ok := stack[len(stack)-2].(*ast.AssignStmt); ok {
+				as = a
+			} else if u, ok := stack[len(stack)-2].(*ast.UnaryExpr); ok && u.Op == token.AND && len(stack) >= 3 {
+				if a, ok := stack[len(stack)-3].(*ast.AssignStmt); ok {
+					as = a
+				}
+			}
+			if as != nil && len(as.Lhs) == 1 && len(as.Rhs) == 1 {
+				if id, ok := as.Lhs[0].(*ast.Ident); ok && id.Name != "_" {
+					obj := info.ObjectOf(id)
+					var extra []ast.Expr
+					ast.Inspect(fd.Body, func(m ast.Node) bool {
+						a2, ok := m.(*ast.AssignStmt)
+						if !ok || len(a2.Lhs) != 1 || len(a2.Rhs) != 1 || a2.Pos() < cl.End() {
+							return true
+						}
+						if sel, ok := a2.Lhs[0].(*ast.SelectorExpr); ok {
+							if x, ok := sel.X.(*ast.Ident); ok && obj != nil && info.ObjectOf(x) == obj {
+								extra = append(extra, &ast.KeyValueExpr{Key: sel.Sel, Value: a2.Rhs[0]})
+							}
+						}
+						return true
+					})
+					if len(extra) > 0 {
+						cl = &ast.CompositeLit{Type: cl.Type, Lbrace: cl.Lbrace, Rbrace: cl.Rbrace, Elts: append(append([]ast.Expr{}, cl.Elts...), extra...)}
+					}
+				}
+			}
+		}
 		site := compositeSite{lit: cl, pos: cl.Pos()}
 		// nearest enclosing if with an init `v, err := call(...)`
 		for i := len(stack) - 1; i >= 0; i-- {
